@@ -210,9 +210,11 @@ class Gen:
             return self.emit('r', m.group(2), None, self.load(fr, (m.group(1) + '.val') if m.group(1) else 'val'))
         if re.fullmatch(r'val\s*==\s*0', e):
             return self.emit('r', 'isz', None, self.load(fr, 'val'))
-        m = re.fullmatch(r'\(\s*int\s*\)\s*(\w+)', e)
+        m = re.fullmatch(r'\(\s*(?:int|unsigned|unsigned\s+int|uint32_t|int32_t)\s*\)\s*(\w+)', e)
         if m:
             v = self.load(fr, m.group(1))
+            if v.t == 'l':                      # a narrowing cast keeps the low word
+                return self.emit('r', 'lo', None, v)
         elif e.startswith('-'):
             v = self.load(fr, e[1:])
             if v.t != 'r':
